@@ -34,10 +34,10 @@ PROPS = {
             "condition is absent or true, appends once per row, evaluates every target on that row (R-ROWLOOP, 4 "
             "gate cases executed abstractly); FROM expression AND-ed with WHERE (R-FROMAND, 4 cases). Does not "
             "decide the numeric value of an operator application, regular-expression results or overload "
-            "resolution for nested expressions. The constant a cell computes with is the parameter written at that place: positional placeholders bind in textual order whatever the order clauses are compiled in (R-PLACEHOLDER). R-DIVGUARD and the operator terms of R-OPSEM are decided by interpreting each implementation on terms with a zero and a non-zero divisor: no division by the second operand is evaluated before the zero test, the zero case returns NULL, the other case returns the operation of the operator's name. AND / OR / COALESCE are interpreted on terms for every operand list of length 1-3 over NULL, FALSE, TRUE, zero/empty and other values: the value is that of the truth table (NULL, FALSE or TRUE for AND / OR), operands are evaluated once, left to right, and evaluation stops where the statement says it stops (R-3VL). No evaluator writes state that outlives the row (write census, R-SHARED): a cell is computed from its row alone. R-NULLSTRICT is decided on terms: every NULL / non-NULL operand assignment of every NULL-propagating evaluator class (and every outcome of the comparisons between non-NULL values); a NULL reaches neither the operation nor an ordering comparison nor arithmetic. The function-call evaluator recognises NULL operands by identity (R-EVALALL)."),
+            "resolution for nested expressions. The constant a cell computes with is the parameter written at that place: positional placeholders bind in textual order whatever the order clauses are compiled in (R-PLACEHOLDER). R-DIVGUARD and the operator terms of R-OPSEM are decided by interpreting each implementation on terms with a zero and a non-zero divisor: no division by the second operand is evaluated before the zero test, the zero case returns NULL, the other case returns the operation of the operator's name. AND / OR / COALESCE are interpreted on terms for every operand list of length 1-3 over NULL, FALSE, TRUE, zero/empty and other values: the value is that of the truth table (NULL, FALSE or TRUE for AND / OR), operands are evaluated once, left to right, and evaluation stops where the statement says it stops (R-3VL). No evaluator writes state that outlives the row (write census, R-SHARED): a cell is computed from its row alone. R-NULLSTRICT is decided on terms: every NULL / non-NULL operand assignment of every NULL-propagating evaluator class (and every outcome of the comparisons between non-NULL values); a NULL reaches neither the operation nor an ordering comparison nor arithmetic. The function-call evaluator recognises NULL operands by identity (R-EVALALL). AND, OR, literals, `*` and column names compile to the node of that meaning over all their arguments in source order (R-NODEBUILD, handlers interpreted on terms)."),
         'assumptions': TRUSTED_STRUCT + TRUSTED_ABSINT[3:],
         'quick': [sxev.rule_nullstrict, evalnodes.rule_divguard, evalnodes.rule_promote, evalnodes.rule_opsem,
-                  sxev.rule_3vl, sx.rule_rowloop, sxk.rule_fromand, sxk.rule_implicitcast, gr.rule_precmatrix, sxst.rule_placeholder, st.rule_shared, sxev.rule_evalall],
+                  sxev.rule_3vl, sx.rule_rowloop, sxk.rule_fromand, sxk.rule_implicitcast, gr.rule_precmatrix, sxst.rule_placeholder, st.rule_shared, sxev.rule_evalall, sxk.rule_nodebuild],
         'thorough': [],
     },
     'C02': {
@@ -53,7 +53,7 @@ PROPS = {
             "validated against the domain they are resolved in (R-IDXBOUND) and hidden grouping targets nameless and "
             "appended (R-HIDDEN). Does not decide numeric values of folds nor hashing/equality of key values. Every aggregate node of a target expression is found, once per occurrence and left to right, by get_columns_and_aggregates (R-AGGCOLLECT): a node left out is never allocated, updated or finalized. R-AGGCLASS decides, on terms, the final state of the slot and the mutations of the accumulator object for every value x slot x order x state-query case of every aggregate class, and initialize / finalize / __call__. EvalNode.__eq__ itself holds iff same class and all __slots__ attributes equal (16 cases on terms). Every operand a node is built with is among what childnodes() yields, for each of the 12 evaluator classes (R-CHILDNODES): an operand kept in a tuple or outside __slots__ hides the aggregates below it."),
         'assumptions': TRUSTED_STRUCT,
-        'quick': [sxs.rule_aggproto, sxag.rule_aggclass, eqfaith.rule_eqfaith, sxk.rule_idxbound, cr.rule_hidden, sxg.rule_aggcollect, sxev.rule_childnodes],
+        'quick': [sxs.rule_aggproto, sxag.rule_aggclass, eqfaith.rule_eqfaith, sxk.rule_idxbound, cr.rule_hidden, sxg.rule_aggcollect, sxev.rule_childnodes, sxs.rule_allocator],
         'thorough': [sxs.rule_aggproto_deep, sxk.rule_idxbound_deep],
     },
     'C03': {
@@ -71,7 +71,7 @@ PROPS = {
             "sorts) nor comparability of values."),
         'assumptions': TRUSTED_STRUCT,
         'quick': [sxs.rule_pipeline, sxs.rule_sortskel, sx.rule_nullkey, eqfaith.rule_eqfaith,
-                  sxk.rule_idxbound, cr.rule_hidden],
+                  sxk.rule_idxbound, cr.rule_hidden, sxs.rule_queryexec],
         'thorough': [sxs.rule_sortskel_deep, sxk.rule_idxbound_deep],
     },
     'C04': {
@@ -137,7 +137,7 @@ PROPS = {
         'assumptions': ["TatSu's code generator (5.7.x, the version range pyproject.toml pins) is deterministic and "
                         "faithful to its input grammar", "no BQL text is parsed by the check"],
         'technique': 'translation validation (regenerate and compare syntax trees) + grammar-model analysis',
-        'quick': [gr.rule_regen, gr.rule_precmatrix, gr.rule_astfields, gr.rule_semantics, gr.rule_shadow, gr.rule_keywords, gr.rule_lexlang, gr.rule_fieldonce, gr.rule_clauseorder, st.rule_parsefresh],
+        'quick': [gr.rule_regen, gr.rule_precmatrix, gr.rule_astfields, gr.rule_semantics, gr.rule_shadow, gr.rule_keywords, gr.rule_lexlang, gr.rule_fieldonce, gr.rule_clauseorder, st.rule_parsefresh, gr.rule_clauselang],
         'thorough': [gr.rule_lexspec],
     },
     'C07': {
@@ -152,7 +152,7 @@ PROPS = {
             "the node's own parse info (R-NAMESLICE); projection to visible indexes (R-PIPELINE). Does not decide that "
             "the slice equals the expression's text for arbitrary spacing (positions come from TatSu at run time)."),
         'assumptions': TRUSTED_STRUCT,
-        'quick': [cr.rule_hidden, cr.rule_visfilter, cr.rule_wildcard, cr.rule_nameslice, sxs.rule_pipeline],
+        'quick': [cr.rule_hidden, cr.rule_visfilter, cr.rule_wildcard, cr.rule_nameslice, sxs.rule_pipeline, sxs.rule_queryexec, sxp.rule_selectnode],
         'thorough': [],
     },
     'C08': {
@@ -309,10 +309,10 @@ PROPS = {
             "(R-GUARDS, R-GUARDSAFE); qualifiers are applied to a copy of the table (R-TABLECOPY); the shell's default "
             "close date is applied exactly to SELECTs with a FROM expression lacking CLOSE (R-DEFAULTCLOSE, 12 cases). NOT "
             "decided: balance preservation, carried-forward Equity postings, balancing of returned transactions - "
-            "properties of beancount.ops.summarize over ledger values. Compiler state is restored around every nested SELECT for every kind of FROM clause and on exceptional exits (R-REENTRANT); PRINT takes its directives from iterating the table, which is what applies the clauses (R-PRINTFILTER); the 33 combinations of FROM expression / OPEN / CLOSE / date order in _compile_from accept or reject as stated and update the table with exactly the clause values (R-FROMCLAUSE). A clause keyword that the grammar reads (OPEN, CLOSE, CLEAR ...) sets the field of its name on every derivation path (R-FIELDONCE); PRINT is compiled on the table its FROM clause produced (R-FIELDFLOW)."),
+            "properties of beancount.ops.summarize over ledger values. Compiler state is restored around every nested SELECT for every kind of FROM clause and on exceptional exits (R-REENTRANT); PRINT takes its directives from iterating the table, which is what applies the clauses (R-PRINTFILTER); the 33 combinations of FROM expression / OPEN / CLOSE / date order in _compile_from accept or reject as stated and update the table with exactly the clause values (R-FROMCLAUSE). A clause keyword that the grammar reads (OPEN, CLOSE, CLEAR ...) sets the field of its name on every derivation path (R-FIELDONCE); PRINT is compiled on the table its FROM clause produced (R-FIELDFLOW). The postings the period report returns are those of the prepared entries, unchanged and in order: the row generators yield one row per directive, resp. per posting of every transaction, each with a row identity of its own, from the entries prepare() returned (R-ROWGEN)."),
         'assumptions': TRUSTED_STRUCT,
         'quick': [cl.rule_callorder, sxk.rule_fromand, sxk.rule_fromclause, sxg.rule_guards, cr.rule_guard_typesafe, sxst.rule_tablecopy,
-                  sxst.rule_defaultclose, sxst.rule_reentrant, sx.rule_printfilter, gr.rule_fieldonce, cl.rule_fieldflow],
+                  sxst.rule_defaultclose, sxst.rule_reentrant, sx.rule_printfilter, gr.rule_fieldonce, cl.rule_fieldflow, sxt.rule_rowgen],
         'thorough': [],
     },
     'C14': {
@@ -325,9 +325,9 @@ PROPS = {
             "(R-EXHAUSTIVE); PRINT collects row.entry for exactly the rows whose filter is absent or true, in order, and "
             "hands the list unmodified to the printer (R-PRINTFILTER, 4 gate cases). The SELECT templates themselves are "
             "string constants and deliberately not matched (a frozen fragment). NOT decided: that printed entries load "
-            "back equal (beancount's printer and parser). The running balance and every other piece of state the expansions touch is private to one execution (R-SHARED), and the FROM qualifiers of all three statements are applied in the fixed order (R-CALLORDER). has_account(), the one function that looks at the directive itself, takes the accounts from getters.get_entry_accounts(context.entry), never branches on the directive type and answers TRUE or FALSE on every path (R-ENTRYFILTER): PRINT evaluates its filter on directives of every type. account_sortkey() classifies with the account types of this ledger (R-ACCTTYPES); execute_print does not hand the ledger's rounding display context to the printer (R-PRINTFILTER print:precision) - a necessary condition of losslessness, the round trip itself is not decided."),
+            "back equal (beancount's printer and parser). The running balance and every other piece of state the expansions touch is private to one execution (R-SHARED), and the FROM qualifiers of all three statements are applied in the fixed order (R-CALLORDER). has_account(), the one function that looks at the directive itself, takes the accounts from getters.get_entry_accounts(context.entry), never branches on the directive type and answers TRUE or FALSE on every path (R-ENTRYFILTER): PRINT evaluates its filter on directives of every type. account_sortkey() classifies with the account types of this ledger (R-ACCTTYPES); execute_print does not hand the ledger's rounding display context to the printer (R-PRINTFILTER print:precision) - a necessary condition of losslessness, the round trip itself is not decided. What the three statements read from the ledger is decided too: every column of the entries and postings tables (the operands of a PRINT filter, of WHERE and of the JOURNAL / BALANCES templates) reads the recorded attribute path of the directive (R-ACCESSPATH), and the summary functions units / cost / value of a position or inventory are the recorded reductions of beancount's convert module (R-REDUCE)."),
         'assumptions': TRUSTED_STRUCT,
-        'quick': [cl.rule_fieldflow, cr.rule_exhaustive, sx.rule_printfilter, st.rule_shared, cl.rule_callorder, sx.rule_entryfilter, sxl.rule_accttypes, sxst.rule_onceperrow],
+        'quick': [cl.rule_fieldflow, cr.rule_exhaustive, sx.rule_printfilter, st.rule_shared, cl.rule_callorder, sx.rule_entryfilter, sxl.rule_accttypes, sxst.rule_onceperrow, tb.rule_accesspath, sxl.rule_reduce],
         'thorough': [],
     },
     'C15': {
@@ -341,7 +341,7 @@ PROPS = {
             "column, block placement keys.index(k) * nother + 1, NULL fill (R-PIVOTSHAPE: the recognised skeleton; a "
             "rewrite ends in ANALYSIS-ERROR, not a verdict). NOT decided: the index arithmetic for all key sets."),
         'assumptions': TRUSTED_STRUCT,
-        'quick': [sxk.rule_idxbound, cr.rule_guard_typesafe, sxg.rule_guards, sxp.rule_pivotshape],
+        'quick': [sxk.rule_idxbound, cr.rule_guard_typesafe, sxg.rule_guards, sxp.rule_pivotshape, gr.rule_clauselang_pivot, sxp.rule_pivotflow],
         'thorough': [sxp.rule_pivotshape_deep, sxk.rule_idxbound_deep],
     },
     'C19': {
